@@ -3,7 +3,8 @@ import Driver.Options
 /-
 Driver commands of area `life` (C08).  One request line is one whole history:
 
-  hist <top defs>|<sub defs>|<cmd>|<cmd>|…      → one observation per command, joined by `|`
+  hist <top defs>|<sub defs>|<pdoTop>|<pdoSub>|<spcall>|<cmd>|<cmd>|…   → one observation per command, joined by `|`
+  (pdoTop / pdoSub / spcall: the default_options dicts of project('top'), project('sub'), subproject('sub'))
 
 defs  `name=spec,name=spec` (spec as in Driver/Options.lean: `kind/default/y/r`)
 cmd   `su;<dict>`  `rc;<dict>`  `cf;<optdict>`  `wi;<dict>`  `es;<0|1>;<name>;<spec>`  `er;<0|1>;<name>`
@@ -111,7 +112,9 @@ def runCmds : Dir → List String → List String
 
 def handle (cmd : String) (fs : List String) : String :=
   match cmd, fs with
-  | "hist", top :: sub :: cmds => "|".intercalate (runCmds (Dir.fresh (parseDefs top) (parseDefs sub)) cmds)
+  | "hist", top :: sub :: pdoTop :: pdoSub :: spcall :: cmds =>
+    "|".intercalate (runCmds { top := parseDefs top, sub := parseDefs sub, pdoTop := parseDict pdoTop,
+                               pdoSub := parseDict pdoSub, spcall := parseDict spcall } cmds)
   | _, _ => "bad-op"
 
 end Driver.Life
